@@ -168,12 +168,16 @@ def check(ctx):
     # header names the two features are configured with, judged at start-up: a usable name starts and serves with the
     # identifier on the response, an unusable one is refused with an error that names it — per feature, whatever the other one is
     from . import c18
-    d.check_oracle_only(c18.serve_episodes(ctx, names_only=True), c18.serve_oracle, "id-names")
+    names_eps = c18.serve_episodes(ctx, names_only=True)
+    d.check_oracle_only(names_eps, c18.serve_oracle, "id-names")
+    ctx.cov["identifier_header_names_judged_at_start_up"] = len(names_eps)
     from . import c01
     we = wire_episodes(ctx.rng)
     C.Differential(ctx, binary, timeout=600, project=c01.project).check(we, oracle=c01.oracle, label="ids-wire")
     ctx.cov["wire_episodes_with_interim_responses"] = len(we)
-    C.Differential(ctx, binary, timeout=600).check_oracle_only(own_id_episodes(ctx.rng), own_id_oracle, "ids-own")
+    own = own_id_episodes(ctx.rng)
+    C.Differential(ctx, binary, timeout=600).check_oracle_only(own, own_id_oracle, "ids-own")
+    ctx.cov["episodes_with_a_backend_header_under_the_identifier_name"] = len(own)
     paths = {}
     nontriv = set()
     if bad == 0:
